@@ -758,8 +758,14 @@ class OpsMixin:
                 return a * b
             if isinstance(b, (str, bytes, list, tuple)) and isinstance(a, int):
                 return a * b
-        if op in ("|", "&", "-", "^") and isinstance(a, (set, frozenset)) and isinstance(b, (set, frozenset)):
-            return {"|": a | b, "&": a & b, "-": a - b, "^": a ^ b}[op]
+        if op in ("|", "&", "-", "^") and isinstance(a, (set, frozenset, DictView)) and isinstance(b, (set, frozenset, DictView)):
+            # (dict views support the set operations; the result is a set: its iteration order is not the dictionary's)
+            a_ = set(a.items()) if isinstance(a, DictView) else a
+            b_ = set(b.items()) if isinstance(b, DictView) else b
+            try:
+                return {"|": a_ | b_, "&": a_ & b_, "-": a_ - b_, "^": a_ ^ b_}[op]
+            except TypeError:
+                return Unknown("set operation on unhashable items")
         self.event("type-error", op=op, left=a, right=b, where=frame.where(node), node=node)
         raise PyRaise(Instance(self.bclasses["TypeError"],
                                ("unsupported operand type(s) for %s: %r and %r" % (op, self.kind_of(a), self.kind_of(b)),)),
@@ -903,7 +909,12 @@ class OpsMixin:
         if isinstance(v, (list, tuple, range, str, bytes)):
             return list(v)
         if isinstance(v, (set, frozenset)):
-            return sorted(v, key=repr)
+            # a set has no defined iteration order (for strings it changes from run to run): the analysis fixes one, and
+            # checks that care evaluate under the opposite one as well (self.set_order_reversed)
+            r = sorted(v, key=repr)
+            if len(r) > 1:
+                self.event("set-iteration", size=len(r), where=frame.where(node) if frame is not None and node is not None else None, node=node)
+            return list(reversed(r)) if getattr(self, "set_order_reversed", False) else r
         if isinstance(v, dict):
             return list(v.keys())
         if isinstance(v, GenVal):
